@@ -27,7 +27,7 @@ pub fn run(args: &Args) -> Report {
   let mut r = match args.property.as_str() {
     "C01" => {
       let mut r = with_exhaustive(wf::run_classes("C01", t, s, &[CP { name: "td-exact", n: 4000 * scale }, CP { name: "td-mixed", n: 6000 * scale }], replay.clone()), "C01", t, s, &replay);
-      r.rule = format!("{}Class: top-down-only histories. Monitor: every value returned by Session::require and, after the session, every resource content is compared with the from-scratch interpreter Ref run on the state the session started from (thorough: also a fresh Pie). distinct = digest(case, session index); non-trivial = a session in which at least one previously completed task was re-executed AND at least one was reused after validation.", CLASS_DOC);
+      r.rule = format!("{}Class: top-down-only histories. Monitor: every value returned by Session::require and, after the session, every resource content is compared with the from-scratch interpreter Ref run on the state the session started from (thorough: also a fresh Pie). distinct = digest of the case (program, initial state, history); non-trivial = a case with at least one session in which at least one previously completed task was re-executed AND at least one was reused after validation.", CLASS_DOC);
       match &replay { Some((c, n)) if c == "files" => { r = wf::run_files("C01", s, 0, Some(*n)); } Some(_) => {} None => r.merge(wf::run_files("C01", s, 150 * scale, None)) }
       r.rule.push_str(" File-backed slice: the same generated programs over pie's real PathBuf resource on a temporary directory with the real HashChecker / ExistsChecker / ModifiedChecker (modification times set explicitly and strictly increasing) and EqualsChecker / AlwaysConsistent, outputs and file contents compared with Ref.");
       r.floor("outputs compared with Ref", r.get("outputs_compared_with_ref") > 1000);
@@ -44,7 +44,7 @@ pub fn run(args: &Args) -> Report {
     }
     "C03" => {
       let mut r = with_exhaustive(wf::run_classes("C03", t, s, &[CP { name: "pure-exact", n: 3000 * scale }, CP { name: "pure-mixed", n: 4000 * scale }, CP { name: "mixed-any", n: 4000 * scale }], replay.clone()), "C03", t, s, &replay);
-      r.rule = format!("{}Classes: pure histories (every batch of external changes is reported to a bottom-up build before any partial top-down build) and mixed histories. Monitor: after every bottom-up build a probe session requires every known task in shuffled order: nothing may execute, outputs and resources must equal Ref, no abort; requires issued after the update in the same session count as well. In mixed histories an execution in the probe must be explained by the K1 classifier (producer last executed by a partial top-down build while changes were pending) or it is a violation; pure histories have no suppression. non-trivial = a bottom-up build that re-executed a completed task.", CLASS_DOC);
+      r.rule = format!("{}Classes: pure histories (every batch of external changes is reported to a bottom-up build before any partial top-down build) and mixed histories. Monitor: after every bottom-up build a probe session requires every known task in shuffled order: nothing may execute, outputs and resources must equal Ref, no abort; requires issued after the update in the same session count as well. In mixed histories an execution in the probe must be explained by the K1 classifier (producer last executed by a partial top-down build while changes were pending) or it is a violation; pure histories have no suppression. non-trivial = a distinct case with a bottom-up build that re-executed a completed task.", CLASS_DOC);
       match &replay { Some((c, n)) if c == "files" => { r = wf::run_files("C03", s, 0, Some(*n)); } Some(_) => {} None => r.merge(wf::run_files("C03", s, 150 * scale, None)) }
       r.rule.push_str(" File-backed slice: the same generated programs over pie's real PathBuf resource and real file checkers, bottom-up builds scheduled with the changed paths, followed by the same probe.");
       r.floor("probes ran", r.get("c03_probes") > 1000);
@@ -54,7 +54,7 @@ pub fn run(args: &Args) -> Report {
     }
     "C04" => {
       let mut r = with_exhaustive(wf::run_classes("C04", t, s, &[CP { name: "pure-exact", n: 5000 * scale }, CP { name: "pure-mixed", n: 5000 * scale }], replay.clone()), "C04", t, s, &replay);
-      r.rule = format!("{}Class: pure histories. Monitor over each bottom-up build: at most one execution per task; every executed task is new or was reported inconsistent (checker-side verdict, cross-checked with Tracker::schedule_task); at every execution start no scheduled-and-unexecuted task is (transitively, per the shadow of declared dependencies) required by the starting task; every scheduled task is executed before the build returns. non-trivial = a build that re-executed a completed task.", CLASS_DOC);
+      r.rule = format!("{}Class: pure histories. Monitor over each bottom-up build: at most one execution per task; every executed task is new or was reported inconsistent (checker-side verdict, cross-checked with Tracker::schedule_task); at every execution start no scheduled-and-unexecuted task is (transitively, per the shadow of declared dependencies) required by the starting task; every scheduled task is executed before the build returns. non-trivial = a distinct case with a bottom-up build that re-executed a completed task.", CLASS_DOC);
       r.floor("bottom-up builds executed tasks", r.get("bottom_up_executions") > 500);
       r.floor("queue length >= 4 observed", r.get("max_bottom_up_queue") >= 4);
       r.floor("early cut-offs observed", r.get("bottom_up_early_cutoffs") > 10);
@@ -63,32 +63,32 @@ pub fn run(args: &Args) -> Report {
     }
     "C05" => {
       let mut r = wf::run_classes("C05", t, s, &[CP { name: "td-inj-hr", n: 3000 * scale }, CP { name: "td-inj-hw", n: 3000 * scale }, CP { name: "mixed-inj-hr", n: 2000 * scale }, CP { name: "mixed-inj-hw", n: 2000 * scale }, CP { name: "td-inj-any", n: 1000 * scale }], replay);
-      r.rule = format!("{}Classes: a read of a generated resource without requiring its generator, or a write to a resource that other tasks read, is injected (usually conditional on a source value, so that it becomes live in a later session) at a random task and position of a well-formed program. Monitors: (online, shadow-based) a read that returns while another task has a recorded write and the reader does not reach it over recorded or in-progress requires; a write function entered (or written_to returned) while a recorded reader does not reach the writer; a hidden-dependency abort after the write function already ran; final store structure after a returning build; (Ref-based) the from-scratch interpreter hits a hidden dependency while evaluating a root for which pie returned a value. non-trivial = a session aborted with a hidden-dependency diagnosis.", CLASS_DOC);
+      r.rule = format!("{}Classes: a read of a generated resource without requiring its generator, or a write to a resource that other tasks read, is injected (usually conditional on a source value, so that it becomes live in a later session) at a random task and position of a well-formed program. Monitors: (online, shadow-based) a read that returns while another task has a recorded write and the reader does not reach it over recorded or in-progress requires; a write function entered (or written_to returned) while a recorded reader does not reach the writer; a hidden-dependency abort after the write function already ran; final store structure after a returning build; (Ref-based) the from-scratch interpreter hits a hidden dependency while evaluating a root for which pie returned a value. non-trivial = a distinct case with a session aborted with a hidden-dependency diagnosis.", CLASS_DOC);
       r.floor("hidden-dependency aborts observed", r.get("aborts_hidden-dependency") > 50);
       r.floor("injected programs also ran without abort (legal side)", r.get("sessions") > r.get("aborts") * 2);
       r
     }
     "C06" => {
       let mut r = wf::run_classes("C06", t, s, &[CP { name: "td-inj-ov", n: 4000 * scale }, CP { name: "mixed-inj-ov", n: 3000 * scale }, CP { name: "td-inj-any", n: 1000 * scale }, CP { name: "mixed-mixed", n: 2000 * scale }], replay);
-      r.rule = format!("{}Classes: a second writer of a generated resource is injected (usually value-conditional) into a well-formed program; plus well-formed programs whose writers are re-executed top-down, bottom-up and through nested requires (must never be reported as overlap). Monitors: a write function entered or a written_to returned while the shadow holds a write of the resource by another task; an overlapping-write abort after the write function already ran; at most one writer per resource in the store after a returning build; Ref-based: overlap found from scratch but a value returned. non-trivial = a session aborted with an overlapping-write diagnosis.", CLASS_DOC);
+      r.rule = format!("{}Classes: a second writer of a generated resource is injected (usually value-conditional) into a well-formed program; plus well-formed programs whose writers are re-executed top-down, bottom-up and through nested requires (must never be reported as overlap). Monitors: a write function entered or a written_to returned while the shadow holds a write of the resource by another task; an overlapping-write abort after the write function already ran; at most one writer per resource in the store after a returning build; Ref-based: overlap found from scratch but a value returned. non-trivial = a distinct case with a session aborted with an overlapping-write diagnosis.", CLASS_DOC);
       r.floor("overlapping-write aborts observed", r.get("aborts_overlapping-write") > 50);
       r
     }
     "C07" => {
       let mut r = wf::run_classes("C07", t, s, &[CP { name: "td-inj-cy", n: 4000 * scale }, CP { name: "mixed-inj-cy", n: 3000 * scale }, CP { name: "td-inj-any", n: 1000 * scale }], replay);
-      r.rule = format!("{}Classes: a require of an earlier (or the same) task is injected (usually value-conditional) at a random task, giving cycles of length 1..n that appear in some session of the history. Monitors: a task starting to execute while it is on the task-side execution stack; a require returning a value for a task on the stack; the step bound (unbounded recursion); Ref-based: the from-scratch interpreter closes a cycle while evaluating a root for which pie returned a value. The store's rank invariant is checked through the dump at every quiescent point. non-trivial = a session aborted with a cyclic-dependency diagnosis.", CLASS_DOC);
+      r.rule = format!("{}Classes: a require of an earlier (or the same) task is injected (usually value-conditional) at a random task, giving cycles of length 1..n that appear in some session of the history. Monitors: a task starting to execute while it is on the task-side execution stack; a require returning a value for a task on the stack; the step bound (unbounded recursion); Ref-based: the from-scratch interpreter closes a cycle while evaluating a root for which pie returned a value. The store's rank invariant is checked through the dump at every quiescent point. non-trivial = a distinct case with a session aborted with a cyclic-dependency diagnosis.", CLASS_DOC);
       r.floor("cycle aborts observed", r.get("aborts_cycle") > 50);
       r
     }
     "C08" => {
       let mut r = with_exhaustive(wf::run_classes("C08", t, s, &[CP { name: "td-any", n: 3000 * scale }, CP { name: "mixed-any", n: 3000 * scale }, CP { name: "mixed-multi", n: 2000 * scale }], replay.clone()), "C08", t, s, &replay);
-      r.rule = format!("{}Classes: top-down and mixed histories over programs whose dependency structure depends on resource values, plus the multi-checker-target mutation. Monitor: at every quiescent point the guarded store dump (nodes, edges in iteration order, edge kind, checker and stamp objects, outputs) must equal the shadow reconstructed from task-side and checker-side events, collapsed to one edge per target; every check performed must belong to a dependency of the owner's latest execution. Several declarations with different checkers on one target are reported under the K2 signature only. non-trivial = a session that re-executed a completed task (its recorded dependencies were replaced).", CLASS_DOC);
+      r.rule = format!("{}Classes: top-down and mixed histories over programs whose dependency structure depends on resource values, plus the multi-checker-target mutation. Monitor: at every quiescent point the guarded store dump (nodes, edges in iteration order, edge kind, checker and stamp objects, outputs) must equal the shadow reconstructed from task-side and checker-side events, collapsed to one edge per target; every check performed must belong to a dependency of the owner's latest execution. Several declarations with different checkers on one target are reported under the K2 signature only. non-trivial = a distinct case with a session that re-executed a completed task (its recorded dependencies were replaced).", CLASS_DOC);
       r.floor("re-executions observed", r.get("re_executions") > 100);
       r
     }
     "C09" => {
       let mut r = with_exhaustive(wf::run_classes("C09", t, s, &[CP { name: "td-mixed", n: 5000 * scale }, CP { name: "pure-mixed", n: 5000 * scale }], replay.clone()), "C09", t, s, &replay);
-      r.rule = format!("{}Classes: programs mixing all checker kinds. Monitor: per context operation the exact user-visible call pattern (Resource::read -> stamp_reader on that very reader before the task's first get; Resource::write -> write function -> stamp_writer seeing the written value; written_to -> stamp at call time; require -> stamp of the returned output); every later check is handed the checker value and stamp of the dependency's creation; inconsistent => owner executed next, all consistent => owner not executed. non-trivial = a session with both consistent and inconsistent verdicts.", CLASS_DOC);
+      r.rule = format!("{}Classes: programs mixing all checker kinds. Monitor: per context operation the exact user-visible call pattern (Resource::read -> stamp_reader on that very reader before the task's first get; Resource::write -> write function -> stamp_writer seeing the written value; written_to -> stamp at call time; require -> stamp of the returned output); every later check is handed the checker value and stamp of the dependency's creation; inconsistent => owner executed next, all consistent => owner not executed. non-trivial = a distinct case with a session with both consistent and inconsistent verdicts.", CLASS_DOC);
       r.floor("both verdicts observed", r.get("verdicts_consistent") > 100 && r.get("verdicts_inconsistent") > 100);
       r
     }
@@ -107,14 +107,14 @@ pub fn run(args: &Args) -> Report {
         });
         for p in parts { r.merge(p); }
       }
-      r.rule = format!("{}Leg 1: a full-fidelity tracker (all 23 callbacks) writes into the same totally ordered log as the task-side and checker-side observers; monitor = stack discipline of start/end events (failed operations popped when the failure is observed), exact adjacency with task-side execution/require/read/write events, verdicts and stamps reported = those the checkers produced. Leg 2: CompositeTracker(R, CompositeTracker(EventTracker, R)) - both recorders must see identical streams, EventTracker::slice must equal the projection of the stream since the last build_start with index = position, and every Event/EventTracker query helper is compared with an independent implementation for every event and every task/resource key. non-trivial = session with >= 12 tracker events / build with >= 6 recorded events.", CLASS_DOC);
+      r.rule = format!("{}Leg 1: a full-fidelity tracker (all 23 callbacks) writes into the same totally ordered log as the task-side and checker-side observers; monitor = stack discipline of start/end events (failed operations popped when the failure is observed), exact adjacency with task-side execution/require/read/write events, verdicts and stamps reported = those the checkers produced. Leg 2: CompositeTracker(R, CompositeTracker(EventTracker, R)) - both recorders must see identical streams, EventTracker::slice must equal the projection of the stream since the last build_start with index = position, and every Event/EventTracker query helper is compared with an independent implementation for every event and every task/resource key. non-trivial = a distinct case with a session of >= 12 tracker events (leg 1) / a build with >= 6 recorded events (leg 2).", CLASS_DOC);
       r.floor("all 23 tracker methods observed through the composite", c17x::all_methods_seen(&r) || replay.is_some());
       r.floor("helper comparisons ran", r.get("helper_calls_compared") > 1000 || replay.is_some());
       r
     }
     "C18" => {
       let mut r = wf::run_classes("C18", t, s, &[CP { name: "td-fc-any", n: 5000 * scale }, CP { name: "pure-fc-any", n: 5000 * scale }], replay);
-      r.rule = format!("{}Fault class: checkers of chosen (owner task, resource) pairs return Err from check while armed (armed/disarmed between builds). Monitor: every injected error (unique serial) appears exactly once in Session::dependency_check_errors of that session and nothing else does; top-down: the owner is executed right after the failing check; bottom-up: the owner is scheduled and executed in that build; no abort; outputs and resources still equal Ref. evaluations = cases; non-trivial = session in which at least one injected error was observed.", CLASS_DOC);
+      r.rule = format!("{}Fault class: checkers of chosen (owner task, resource) pairs return Err from check while armed (armed/disarmed between builds). Monitor: every injected error (unique serial) appears exactly once in Session::dependency_check_errors of that session and nothing else does; top-down: the owner is executed right after the failing check; bottom-up: the owner is scheduled and executed in that build; no abort; outputs and resources still equal Ref. evaluations = cases; non-trivial = a distinct case with a session in which at least one injected error was observed.", CLASS_DOC);
       r.floor("injected checker errors observed", r.nontrivial.len() > 100);
       r
     }
@@ -126,14 +126,14 @@ pub fn run(args: &Args) -> Report {
       if replay.as_ref().map_or(true, |(c, _)| c == "crash-points") {
         r.merge(wf::run_crash_points("C19", t, s, 300 * scale, replay.as_ref().map(|x| x.1)));
       }
-      r.rule = format!("{}Fault classes: (a) crash-point enumeration - for a well-formed case and a chosen top-down session the whole run is repeated with a panic injected at EVERY task operation k of that session (any nesting depth); the caught abort is followed by the rest of the history on the same instance; because the programs have static roles, every later session must return exactly the from-scratch result and must not abort; (b) diagnosed violations and user panics injected value-conditionally (cycle, hidden dependency, overlapping write, task panic), followed by further sessions with the cause kept or removed. Monitor: a later build may return (then = Ref), or abort with a diagnosis (judged by C20's classifier), but any other panic - a message starting with BUG, or any panic raised inside /repo - is a violation; the store dump after the abort must equal the shadow including reserved and partial dependencies. evaluations = runs (one per crash point); non-trivial = run with re-execution after the abort.", CLASS_DOC);
+      r.rule = format!("{}Fault classes: (a) crash-point enumeration - for a well-formed case and a chosen top-down session the whole run is repeated with a panic injected at EVERY task operation k of that session (any nesting depth); the caught abort is followed by the rest of the history on the same instance; because the programs have static roles, every later session must return exactly the from-scratch result and must not abort; (b) diagnosed violations and user panics injected value-conditionally (cycle, hidden dependency, overlapping write, task panic), followed by further sessions with the cause kept or removed. Monitor: a later build may return (then = Ref), or abort with a diagnosis (judged by C20's classifier), but any other panic - a message starting with BUG, or any panic raised inside /repo - is a violation; the store dump after the abort must equal the shadow including reserved and partial dependencies. evaluations = runs (one per crash point / per case); non-trivial = a distinct run with re-execution of a completed task.", CLASS_DOC);
       r.floor("crash points enumerated", r.get("crash_points") > 500 || replay.is_some());
       r.floor("aborts observed", r.get("aborts") > 500 || replay.is_some());
       r
     }
     "C20" => {
       let mut r = with_exhaustive(wf::run_classes("C20", t, s, &[CP { name: "td-any", n: 2000 * scale }, CP { name: "pure-any", n: 2000 * scale }, CP { name: "mixed-any", n: 1000 * scale }, CP { name: "td-inj-any", n: 3000 * scale }, CP { name: "mixed-inj-any", n: 2000 * scale }], replay.clone()), "C20", t, s, &replay);
-      r.rule = format!("{}Well-formed classes: no abort may ever happen. Role-flip classes (value-conditional injected reads/writes/requires, so who writes, reads and requires what depends on the state): when pie aborts with a diagnosis, from-scratch builds of all known tasks in the current state (several evaluation orders) must hit the same kind of violation; otherwise the abort must be explained by the stale-edge classifier (finding K3: the other task named in the message was not executed in this session and, evaluated from scratch now, does not create that edge), else it is a violation. non-trivial = session with re-execution and reuse; aborts are counted per kind.", CLASS_DOC);
+      r.rule = format!("{}Well-formed classes: no abort may ever happen. Role-flip classes (value-conditional injected reads/writes/requires, so who writes, reads and requires what depends on the state): when pie aborts with a diagnosis, from-scratch builds of all known tasks in the current state (several evaluation orders) must hit the same kind of violation; otherwise the abort must be explained by the stale-edge classifier (finding K3: the other task named in the message was not executed in this session and, evaluated from scratch now, does not create that edge), else it is a violation. non-trivial = a distinct case with a session that both re-executed and reused tasks; aborts are counted per kind.", CLASS_DOC);
       r.floor("sessions ran", r.get("sessions") > 1000);
       r.floor("aborts confirmed by the from-scratch build observed", r.get("aborts_confirmed_by_from_scratch_build") > 20);
       r
